@@ -132,8 +132,45 @@ def selection(ctx: Ctx):
         (["not " + rows_g, "not " + cols_g], f"{SOM}.table_proportions.blocks"),
     ]
     want_s = [(g, l.replace("_proportions.blocks", "_std_err.blocks")) for g, l in want_p]
-    ctx.ob("selection", f"{MM}::_PopulationProportions.blocks", tp, want_p, tp == want_p, "rows categorical-date -> row proportions (every wave projects the full population); else columns categorical-date -> column proportions; else table proportions")
-    ctx.ob("selection", f"{MM}::_PopulationStandardError.blocks", ts, want_s, ts == want_s, "the standard error is selected by the SAME guards in the SAME order and paired with the proportion of the same direction")
+    # decided as a TABLE over (rows type, columns type), whatever the spelling of the guards (operand order, `in (..)`,
+    # a chain of negations): which block collection does the expression select for each pair of dimension types
+    from ..dectab import DTop, Raises
+    from ..typetab import dt_members, eval_over_types
+
+    def leaf(x):
+        if isinstance(x, ast.Attribute) and x.attr == "blocks":
+            return "<" + u(x) + ">"
+        raise KeyError
+
+    def table(ci, e, suffix):
+        bad, n = [], 0
+        members = dt_members(ctx.repo)
+        for r in members:
+            for c in members:
+                atoms = {}
+                for spell_r, spell_c in (("self._dimensions[-2].dimension_type", "self._dimensions[-1].dimension_type"), ("self._dimensions[0].dimension_type", "self._dimensions[1].dimension_type")):
+                    atoms[spell_r], atoms[spell_c] = r, c
+                got = eval_over_types(ctx.repo, ci.module, e, atoms, extra=leaf)
+                want = f"<{SOM}.{'row' if r == 'CAT_DATE' else ('column' if c == 'CAT_DATE' else 'table')}{suffix}.blocks>"
+                n += 1
+                if got != want:
+                    bad.append(f"{r} x {c}: {str(got)[:70]} (specified {want[1:-1]})")
+        return bad, n
+
+    for ci, e, text_tab, want_tab, suffix, why in (
+        (pp, expand(ctx.repo, pp, "blocks"), tp, want_p, "_proportions", "rows categorical-date -> row proportions (every wave projects the full population); else columns categorical-date -> column proportions; else table proportions"),
+        (ps, expand(ctx.repo, ps, "blocks"), ts, want_s, "_std_err", "the standard error is selected by the SAME guards in the SAME order and paired with the proportion of the same direction"),
+    ):
+        where = f"{MM}::{ci.name}.blocks"
+        if text_tab == want_tab:
+            ctx.ob("selection", where, text_tab, want_tab, True, why)
+            continue
+        try:
+            bad, n = table(ci, e, suffix)
+        except (DTop, Raises, KeyError) as exc:
+            ctx.undecided("selection", where, f"DECTAB: {exc}", "table over rows type x columns type")
+            continue
+        ctx.ob("selection", where, bad[:4] or f"{n} type pairs select the specified blocks", "rows CAT_DATE -> row; else columns CAT_DATE -> column; else table", not bad, why)
     # sibling agreement independent of the literal spec: same guards, paired leaves
     paired = len(tp) == len(ts) and all(g1 == g2 and l1.replace("_proportions", "_std_err") == l2 for (g1, l1), (g2, l2) in zip(tp, ts))
     ctx.ob("selection.siblings", f"{MM}::_PopulationProportions/_PopulationStandardError", paired, True, paired, "proportion and standard-error selection tables agree path by path")
